@@ -154,70 +154,40 @@ Proof.
   - intros H. exists x. split; [exact H|apply Z.eqb_refl].
 Qed.
 
+Lemma fresh_ok_nil t u orig : fresh_ok t u orig [].
+Proof. split; [intros e []|constructor]. Qed.
+
 Lemma sa_result mode t u L addrs cur fresh :
-  NoDup (map da L) -> NoDup addrs ->
+  NoDup (map da L) ->
   fold_left (sa_step mode t u L) addrs (L, []) = (cur, fresh) ->
   NoDup (map da (cur ++ fresh)) /\
   forall x, find_de x (cur ++ fresh) = G_set mode addrs t u x (find_de x L).
 Proof.
-  intros HL Ha E. pose proof (sa_fold mode t u L addrs L []) as H. rewrite E in H.
-  destruct H as [H1 [H2 H3]]. cbn [app] in H3. split.
-  - rewrite map_app, H1, H3, map_map. cbn [da]. rewrite map_id. apply nodup_app; [exact HL| |].
-    + apply NoDup_filter. exact Ha.
-    + intros x Hx Hin. apply filter_In in Hin. destruct Hin as [_ Hn]. apply negb_true_iff in Hn.
-      apply in_rec_in in Hx. congruence.
-  - intros x. rewrite find_de_app, H2, H3, find_de_fresh, zmem_filter. unfold G_set.
-    rewrite (in_rec_find x L). destruct (find_de x L) as [e|] eqn:F; cbn [negb option_map].
-    + rewrite andb_true_r. apply find_de_some in F. destruct (zmem x addrs); reflexivity.
+  intros HL E. pose proof (sa_fold mode t u L addrs L [] (fresh_ok_nil t u L)) as H. rewrite E in H.
+  destruct H as [H1 [H2 [[H3 H3n] H4]]]. split.
+  - rewrite map_app, H1. apply nodup_app; [exact HL|exact H3n|].
+    intros x Hx Hin. apply in_map_iff in Hin. destruct Hin as [e [<- He]]. destruct (H3 e He) as [_ Hn].
+    apply in_rec_in in Hx. congruence.
+  - intros x. rewrite find_de_app, H2, H4. unfold G_set. rewrite (in_rec_find x L).
+    destruct (find_de x L) as [e|] eqn:F; cbn [negb option_map].
+    + rewrite andb_true_r. destruct (zmem x addrs); reflexivity.
     + rewrite andb_false_r, andb_true_r. reflexivity.
 Qed.
 
 Lemma pspec_setaddrs s p addrs ttl mode :
-  DInv s -> NoDup addrs -> addrs <> [] ->
+  DInv s -> addrs <> [] ->
   pspec s (d_setaddrs s p addrs ttl mode) p (G_set mode addrs ttl (unix (d_now s + ttl)))
         (vcert (unix (d_now s)) (d_store s) p).
 Proof.
-  intros HD Ha Hne. unfold d_setaddrs. destruct addrs as [|a0 t0]; [congruence|].
+  intros HD Hne. unfold d_setaddrs. destruct addrs as [|a0 t0]; [congruence|].
   destruct (load s p true false) as [[s1 pr] inc] eqn:HL.
   destruct (pspec_load s p true false s1 pr inc HD HL) as [PL [Epr Einc]]. subst pr inc. cbn [daddrs dcert].
   destruct (lents_sorted (unix (d_now s)) (d_store s) p (DI_store s HD)) as [_ HnL].
   destruct (fold_left _ (a0 :: t0) (lents (unix (d_now s)) (d_store s) p, [])) as [cur fresh] eqn:EF.
-  apply (sa_result mode ttl (unix (d_now s + ttl)) _ (a0 :: t0) cur fresh HnL Ha) in EF. destruct EF as [Hn HG].
+  apply (sa_result mode ttl (unix (d_now s + ttl)) _ (a0 :: t0) cur fresh HnL) in EF. destruct EF as [Hn HG].
   pose proof (pspec_clean_write s p true false s1 _ _ (cur ++ fresh) (vcert (unix (d_now s)) (d_store s) p)
                 (G_set mode (a0 :: t0) ttl (unix (d_now s + ttl))) HD HL Hn HG) as P.
   destruct (clean (d_now s) _) as [pr2 chg]. exact P.
-Qed.
-
-(* setAddrs(ttlExtend) with a TTL that is not positive: nothing live is added, whatever the batch repeats *)
-Lemma pspec_setaddrs_nonpos s p addrs ttl :
-  DInv s -> ttl <= 0 -> addrs <> [] ->
-  pspec s (d_setaddrs s p addrs ttl TExtend) p (G_set TExtend addrs ttl (unix (d_now s + ttl)))
-        (vcert (unix (d_now s)) (d_store s) p).
-Proof.
-  intros HD Ht Hne. unfold d_setaddrs. destruct addrs as [|a0 t0]; [congruence|].
-  destruct (load s p true false) as [[s1 pr] inc] eqn:HL.
-  destruct (pspec_load s p true false s1 pr inc HD HL) as [PL [Epr Einc]]. subst pr inc. cbn [daddrs dcert].
-  destruct (lents_sorted (unix (d_now s)) (d_store s) p (DI_store s HD)) as [_ HnL].
-  set (L := lents (unix (d_now s)) (d_store s) p) in *. set (U := unix (d_now s)) in *.
-  set (u := unix (d_now s + ttl)).
-  assert (Hu : u <= U) by (apply unix_mono; lia).
-  pose proof (sa_fold TExtend ttl u L (a0 :: t0) L []) as SF.
-  destruct (fold_left _ (a0 :: t0) (L, [])) as [cur fresh] eqn:EF.
-  destruct SF as [H1 [H2 H3]]. cbn [app] in H3.
-  assert (Hnc : NoDup (map da cur)) by (now rewrite H1).
-  assert (Efr : filter (lv U) fresh = []).
-  { rewrite H3. clear H3. induction (filter (fun a => negb (in_rec a L)) (a0 :: t0)) as [|y r IHr]; [reflexivity|].
-    cbn [map filter]. unfold lv at 1. cbn [dexp]. replace (U <? u) with false by (symmetry; apply Z.ltb_ge; lia). exact IHr. }
-  assert (Efl : filter (lv U) (cur ++ fresh) = filter (lv U) cur) by (now rewrite filter_app, Efr, app_nil_r).
-  pose proof (pspec_clean_write_live s p true false s1 _ _ (cur ++ fresh) (vcert U (d_store s) p)
-                (G_set TExtend (a0 :: t0) ttl u) HD HL) as P. fold U in P. rewrite Efl in P.
-  assert (P' := P (nodup_map_filter da (lv U) cur Hnc)). clear P.
-  destruct (clean (d_now s) _) as [pr2 chg]. apply P'. clear P'.
-  intros x. rewrite (find_de_filter _ x cur Hnc), H2. fold L. unfold G_set. rewrite (in_rec_find x L).
-  destruct (find_de x L) as [e|] eqn:F; cbn [option_map].
-  - rewrite andb_true_r. destruct (zmem x (a0 :: t0)); reflexivity.
-  - rewrite andb_false_r. destruct (zmem x (a0 :: t0)); [|reflexivity]. cbn [olive]. unfold lv. cbn [dexp].
-    replace (U <? u) with false by (symmetry; apply Z.ltb_ge; lia). reflexivity.
 Qed.
 
 (* ---- deleteAddrs ----------------------------------------------------------------------------------- *)
